@@ -7,7 +7,7 @@
 //   scen <prim> <init> <sec> <nsec> <quantum_ns> <spur> <eintr> [F:<n>] T:<ret>:<op>,<op>,... T:<ret>:...   -> ok <threads>
 //        prim = mtx | sem | sig | mon | thr ; init = initial count (sem) / initially set (sig)
 //        ops  = lock try-<skip> unlock | signal wait twait-<ms> trywait | set reset wait twait-<ms> |
-//               lock try-<skip> unlock wait twait-<ms> set | start-<j> mstart-<j> (member-function overload) join-<j> dtor-<j> (~Thread) | destroy (sig, mon: delete the object)
+//               lock try-<skip> unlock wait twait-<ms> set | start-<j> mstart-<j> (member-function overload) xstart-<8j+k> (same on object j with the body of program k) join-<j> dtor-<j> (~Thread) | destroy (sig, mon: delete the object)
 //        try-<skip>: on failure the next <skip> ops of the thread are skipped
 //   run <t.a>,<t.a>,...    (or `run -`)  explicit schedule prefix, default policy afterwards
 //        -> init:<events> <t.a>/<candidates>:<events> ... | <verdict>
@@ -34,7 +34,7 @@ int Debug::printf(const char* format, ...)
 }
 
 enum Prim { P_NONE, P_MTX, P_SEM, P_SIG, P_MON, P_THR };
-enum OpK { K_LOCK, K_TRY, K_UNLOCK, K_SIGNAL, K_WAIT, K_TWAIT, K_TRYWAIT, K_SET, K_RESET, K_START, K_MSTART, K_JOIN, K_DTOR, K_DESTROY };
+enum OpK { K_LOCK, K_TRY, K_UNLOCK, K_SIGNAL, K_WAIT, K_TWAIT, K_TRYWAIT, K_SET, K_RESET, K_START, K_MSTART, K_XSTART, K_JOIN, K_DTOR, K_DESTROY };
 struct Op { OpK k; long arg; };
 struct Prog { Op ops[64]; int n; unsigned long ret; };
 
@@ -124,6 +124,14 @@ static void runProg(int t)
       bool r = thr[o.arg]->start(bodies[o.arg], &Body::run);
       sched_event("%d=%d", k, r ? 1 : 0); break;
     }
+    case K_XSTART:   // member-function overload on Thread object j = arg / 8 with the body object of program k = arg % 8
+    {                // (used as a second start() on an object that already runs a thread: must fail and change nothing)
+      int j = (int)(o.arg / 8), b = (int)(o.arg % 8);
+      sched_set_next_tid(j);
+      bodies[b].t = b;
+      bool r = thr[j]->start(bodies[b], &Body::run);
+      sched_event("%d=%d", k, r ? 1 : 0); break;
+    }
     case K_JOIN: { uint r = thr[o.arg]->join(); sched_event("%d=%u", k, r); break; }
     }
   }
@@ -161,6 +169,7 @@ static bool parseOp(char* s, Op& o)
   else if(!strcmp(s, "destroy") && !dash && (si || mo)) o.k = K_DESTROY;
   else if(!strcmp(s, "start") && dash && arg > 0 && arg < SCHED_MAXT) o.k = K_START;
   else if(!strcmp(s, "mstart") && dash && arg > 0 && arg < SCHED_MAXT) o.k = K_MSTART;
+  else if(!strcmp(s, "xstart") && dash && arg / 8 > 0 && arg / 8 < SCHED_MAXT) o.k = K_XSTART;
   else if(!strcmp(s, "dtor") && dash && arg > 0 && arg < SCHED_MAXT) o.k = K_DTOR;
   else if(!strcmp(s, "join") && dash && arg > 0 && arg < SCHED_MAXT) o.k = K_JOIN;
   else return false;
@@ -208,7 +217,10 @@ static bool parseScen(HxLine& l)
   // a start/join may only name an existing program
   for(int t = 0; t < nprog; ++t)
     for(int k = 0; k < prog[t].n; ++k)
+    {
+      if(prog[t].ops[k].k == K_XSTART && (prog[t].ops[k].arg / 8 >= nprog || prog[t].ops[k].arg % 8 >= nprog)) { prim = P_NONE; return false; }
       if((prog[t].ops[k].k == K_START || prog[t].ops[k].k == K_MSTART || prog[t].ops[k].k == K_JOIN || prog[t].ops[k].k == K_DTOR) && prog[t].ops[k].arg >= nprog) { prim = P_NONE; return false; }
+    }
   return true;
 }
 
